@@ -193,7 +193,7 @@ func (ex *exprTr) tr(e ast.Expr) Val {
 		switch t := base.typ.Underlying().(type) {
 		case *types.Slice:
 			name, sort := vc.memName(t.Elem())
-			return Val{t: app("select", app("select", vc.heapGet(ex.st, name, sort), slRef(base.t)), add(slOff(base.t), idx.t)), typ: rt}
+			return Val{t: app("select", app("select", vc.heapGet(ex.st, name, sort), slRef(base.t)), vc.elemIx(slOff(base.t), idx.t)), typ: rt}
 		case *types.Array:
 			return Val{t: app("select", base.t, idx.t), typ: rt}
 		case *types.Basic:
@@ -349,6 +349,8 @@ func (ex *exprTr) binary(x *ast.BinaryExpr) Val {
 		case isFloat(ta):
 			f := vc.declareFun("f64.eq", []string{"F64", "F64"}, "Bool")
 			r = app(f, a.t, b.t)
+		case interiorPtr(a) && b.lv == nil && b.t == "0", interiorPtr(b) && a.lv == nil && a.t == "0":
+			r = "false" // the address of a field or element is never nil
 		default:
 			r = eq(vc.asTerm(a), vc.asTerm(b))
 		}
@@ -648,10 +650,16 @@ func (ex *exprTr) call(x *ast.CallExpr) Val {
 		if v, ok := ex.atomicGhost(name, rt); ok {
 			return v
 		}
-	case "verif_invoked", "verif_tally":
+	case "verif_invoked", "verif_tally", "verif_streamPos":
 		if v, ok := ex.ghostBuiltin(name, []Val{ex.tr(x.Args[0])}, rt); ok {
 			return v
 		}
+	case "verif_calls":
+		lit, ok := x.Args[1].(*ast.BasicLit)
+		if !ok {
+			vc.fail("contract: calls(recv, \"Method\") needs a string literal")
+		}
+		return ex.callsBuiltin(ex.tr(x.Args[0]), strings.Trim(lit.Value, "\""), rt)
 	case "verif_rangeseen":
 		// rangeseen(k): the map range loop this clause belongs to has already produced key k
 		seen, ok := ex.lookup("verif_rangeseen")
@@ -696,10 +704,30 @@ func (ex *exprTr) call(x *ast.CallExpr) Val {
 		ex.env = ex.env[:len(ex.env)-1]
 		vc.quantCtx = true
 		bound := and(app("<=", lo, c), app("<", c, hi))
+		var q Term
 		if name == "verif_forallRange" {
-			return Val{t: "(forall ((" + c + " Int)) " + withPattern(implies(bound, body), c) + ")", typ: rt}
+			q = "(forall ((" + c + " Int)) " + withPattern(implies(bound, body), c) + ")"
+		} else {
+			q = "(exists ((" + c + " Int)) " + withPattern(and(bound, body), c) + ")"
 		}
-		return Val{t: "(exists ((" + c + " Int)) " + withPattern(and(bound, body), c) + ")", typ: rt}
+		qinst := vc.fi != nil && vc.fi.fc.QInst
+		if qinst && !saveND && name == "verif_forallRange" {
+			vc.rangeQs = append(vc.rangeQs, rangeQ{q: q, c: c, bound: bound, body: body})
+		}
+		if qinst && !saveND {
+			// Instances at the hidden indices of the function's `for range` loops, as tautologies
+			// (forall ==> instance, instance ==> exists). E-matching on patterns that contain
+			// offset + index is fragile; the index a loop is looking at is the instance proofs need.
+			for _, t := range vc.rangeIdxTerms() {
+				inst := func(x Term) Term { return strings.ReplaceAll(x, c, t) }
+				if name == "verif_forallRange" {
+					vc.addAssume("true", implies(q, implies(inst(bound), inst(body))))
+				} else {
+					vc.addAssume("true", implies(and(inst(bound), inst(body)), q))
+				}
+			}
+		}
+		return Val{t: q, typ: rt}
 	case "verif_forall", "verif_exists":
 		fl, ok := x.Args[0].(*ast.FuncLit)
 		if !ok {
@@ -991,4 +1019,119 @@ func (ex *exprTr) specHeapReads(fo *types.Func, decl *ast.FuncDecl, info *types.
 	delete(vc.specProbing, fo)
 	vc.specHeaps[fo] = hs
 	return hs
+}
+
+// interiorPtr: the value is the address of a struct field or an array/slice element.
+func interiorPtr(v Val) bool {
+	return v.lv != nil && v.lv.kind != lvHeap && v.lv.kind != lvMemArr
+}
+
+// rangeIdxTerms: the current symbolic values of the hidden indices of `for range` loops over slices,
+// arrays and strings (the phi and its increment), as far as they have been evaluated.
+func (vc *VC) rangeIdxTerms() []Term {
+	var out []Term
+	seen := map[Term]bool{}
+	if vc.fn == nil {
+		return nil
+	}
+	for _, b := range vc.fn.Blocks {
+		for _, in := range b.Instrs {
+			switch x := in.(type) {
+			case *ssa.Phi:
+				if x.Comment != "rangeindex" {
+					continue
+				}
+				if v, ok := vc.vals[x]; ok && v.t != "" && !seen[v.t] {
+					seen[v.t] = true
+					out = append(out, v.t)
+				}
+			case *ssa.BinOp:
+				if phi, ok := x.X.(*ssa.Phi); ok && phi.Comment == "rangeindex" && x.Op == token.ADD {
+					if v, ok := vc.vals[x]; ok && v.t != "" && !seen[v.t] {
+						seen[v.t] = true
+						out = append(out, v.t)
+					}
+				}
+			}
+		}
+	}
+	return out
+}
+
+// rangeQ: a bounded universal quantifier of a contract, kept so that a goal of that shape can be
+// proved at a fresh constant and the other bounded quantifiers instantiated there.
+type rangeQ struct {
+	q, c, bound, body Term
+}
+
+// skolemizeGoal: a goal that is (a conjunction of / an implication ending in) bounded universal
+// quantifiers of the contracts is proved for a fresh constant in place of the bound variable; every
+// bounded universal quantifier translated so far gets its instance at that constant (a tautology).
+func (vc *VC) skolemizeGoal(guard, cond Term) Term {
+	if len(vc.rangeQs) == 0 || !strings.Contains(cond, "(forall ((") {
+		return cond
+	}
+	var rec func(t Term, depth int) Term
+	rec = func(t Term, depth int) Term {
+		t = strings.TrimSpace(t)
+		for _, rq := range vc.rangeQs {
+			if t == rq.q {
+				sk := vc.freshConst("sk", "Int")
+				inst := func(x Term, c Term) Term { return strings.ReplaceAll(x, c, sk) }
+				for _, h := range vc.rangeQs {
+					vc.addAssume(guard, implies(h.q, implies(inst(h.bound, h.c), inst(h.body, h.c))))
+				}
+				return implies(inst(rq.bound, rq.c), inst(rq.body, rq.c))
+			}
+		}
+		if depth > 3 {
+			return t
+		}
+		if strings.HasPrefix(t, "(and ") {
+			parts := splitAnd(t)
+			if len(parts) > 1 {
+				var out []Term
+				for _, p := range parts {
+					out = append(out, rec(p, depth+1))
+				}
+				return and(out...)
+			}
+		}
+		if strings.HasPrefix(t, "(=> ") && strings.HasSuffix(t, ")") {
+			args := splitArgs(t[4 : len(t)-1])
+			if len(args) == 2 {
+				return implies(args[0], rec(args[1], depth+1))
+			}
+		}
+		return t
+	}
+	return rec(cond, 0)
+}
+
+// splitArgs splits the argument text of an application at top level.
+func splitArgs(body string) []string {
+	var parts []string
+	depth, start := 0, 0
+	inBar := false
+	for i := 0; i < len(body); i++ {
+		c := body[i]
+		switch {
+		case c == '|':
+			inBar = !inBar
+		case inBar:
+		case c == '(':
+			depth++
+		case c == ')':
+			depth--
+		case (c == ' ' || c == '\n') && depth == 0:
+			if i > start {
+				parts = append(parts, body[start:i])
+			}
+			start = i + 1
+		}
+	}
+	if start < len(body) {
+		parts = append(parts, body[start:])
+	}
+	return parts
 }
